@@ -141,6 +141,7 @@ type runner struct {
 	history  []string
 	histNT   bool
 	panics   int
+	perKind  map[string]int
 }
 
 func safeExec(p *Prop, toks []string) (out string) {
@@ -255,7 +256,12 @@ func (r *runner) do(op string) string {
 			if r.p.Stateful {
 				v.History = append([]string(nil), r.history...)
 			}
-			if r.nviol < 200 {
+			// per-kind cap so that a frequent (e.g. known) kind cannot crowd out a fresh one
+			if r.perKind == nil {
+				r.perKind = map[string]int{}
+			}
+			r.perKind[v.Kind]++
+			if r.perKind[v.Kind] <= 25 {
 				b, _ := json.Marshal(v)
 				r.viol.Write(b)
 				r.viol.WriteByte('\n')
